@@ -517,3 +517,150 @@ func checkReplayNeverBlocksRegistration(c *Ctx, res *report.Result, rule string)
 		}
 	}
 }
+
+// checkRoutedAckTarget (O3.14 / O1.12): a confirmation is filed under the target it came from: every RoutedAck
+// literal built by a sender's recvAck (both branches of proxyStreamSender.recvAck, intraProxyStreamSender.recvAck)
+// carries TargetShard = that sender's own targetShardID. The source-side receiver keys its per-target map by that
+// field: an ack filed under another shard either overwrites that target's (lower) level - the minimum rises above
+// what it confirmed - or creates an entry nobody updates, which pins the minimum for ever.
+func checkRoutedAckTarget(c *Ctx, res *report.Result, rule string) {
+	n := 0
+	for _, recv := range []string{"*proxyStreamSender", "*intraProxyStreamSender"} {
+		f := resolve(c, res, rule, anchor{"proxy", recv, "recvAck"})
+		if f == nil {
+			continue
+		}
+		k := 0
+		for _, b := range f.Blocks {
+			for _, ins := range b.Instrs {
+				al, ok := ins.(*ssa.Alloc)
+				if !ok || !flow.NamedIs(al.Type(), proxyPkg, "RoutedAck") {
+					continue
+				}
+				k++
+				n++
+				fs, _ := flow.FieldStores(al)
+				v := fs["TargetShard"]
+				if v == nil {
+					v = flow.StructFieldOrigin(al, "TargetShard", 0)
+				}
+				p := ""
+				if v != nil {
+					p, _ = flow.FieldPath(v)
+				}
+				okT := strings.HasSuffix(p, ".targetShardID")
+				if base, _, isLoad := flow.FieldLoadOf(v); okT && isLoad {
+					okT = flow.Strip(flow.ResolveLoad(base)) == ssa.Value(f.Params[0])
+				}
+				res.Check(okT, rule, fmt.Sprintf("(%s).recvAck: forwarded ack #%d is filed under the sender's own target shard", recv, k), instrPos(c.Prog, al), "RoutedAck.TargetShard = receiver's targetShardID", "the forwarded ack carries TargetShard = "+p+" instead of the target shard of the stream it arrived on: the source-side receiver files it under the wrong target - another target's level is overwritten (the minimum rises above what that target confirmed), or a phantom entry is created that no real ack ever updates and the aggregated acknowledgement stalls below the final watermark")
+			}
+		}
+	}
+	if n < 3 {
+		res.Undec(rule, "forwarded acks", "", fmt.Sprintf("%d RoutedAck literals found in the senders' recvAck, 3 confirmed by hand", n))
+	}
+}
+
+// shardIDRoles: which of its two shard ids a stream half must use where (reviewed table; every site listed exists on
+// the current tree). kind "call": argument #arg of every call of `callee` in the function; kind "lit": field `callee`
+// of every composite literal of type RoutedMessage built in the function.
+var shardIDRoles = []struct {
+	recv, fn, kind, callee string
+	arg                    int
+	want                   string
+}{
+	{"*proxyStreamSender", "Run", "call", "SetRemoteSendChan", 0, "targetShardID"},
+	{"*proxyStreamSender", "Run", "call", "RemoveRemoteSendChan", 0, "targetShardID"},
+	{"*proxyStreamSender", "Run", "call", "RegisterShard", 0, "targetShardID"},
+	{"*proxyStreamSender", "Run", "call", "UnregisterShard", 0, "targetShardID"},
+	{"*proxyStreamReceiver", "Run", "call", "SetLocalAckChan", 0, "sourceShardID"},
+	{"*proxyStreamReceiver", "Run", "call", "SetLocalReceiverCancelFunc", 0, "sourceShardID"},
+	{"*proxyStreamReceiver", "Run", "call", "RegisterActiveReceiver", 0, "sourceShardID"},
+	{"*proxyStreamReceiver", "Run", "call", "TerminatePreviousLocalReceiver", 0, "sourceShardID"},
+	{"*proxyStreamReceiver", "recvReplicationMessages", "lit", "SourceShard", 0, "sourceShardID"},
+	{"*proxyStreamReceiver", "sendPendingWatermarkToShard", "lit", "SourceShard", 0, "sourceShardID"},
+	{"*intraProxyStreamSender", "Run", "call", "RegisterSender", 1, "targetShardID"},
+	{"*intraProxyStreamSender", "Run", "call", "RegisterSender", 2, "sourceShardID"},
+	{"*intraProxyStreamSender", "Run", "call", "UnregisterSender", 1, "targetShardID"},
+	{"*intraProxyStreamSender", "Run", "call", "UnregisterSender", 2, "sourceShardID"},
+	{"*intraProxyStreamSender", "Run", "call", "GetActiveReceiver", 0, "sourceShardID"},
+	{"*intraProxyStreamSender", "recvAck", "call", "DeliverAckToShardOwner", 0, "sourceShardID"},
+	{"*intraProxyStreamReceiver", "Run", "call", "RegisterActiveReceiver", 0, "sourceShardID"},
+	{"*intraProxyStreamReceiver", "recvReplicationMessages", "lit", "SourceShard", 0, "sourceShardID"},
+	{"*intraProxyStreamReceiver", "recvReplicationMessages", "call", "GetRemoteSendChan", 0, "targetShardID"},
+	{"*intraProxyStreamReceiver", "sendPendingWatermarkToShard", "lit", "SourceShard", 0, "sourceShardID"},
+}
+
+// checkShardIDRoles: both halves of a stream carry two values of the same type - the shard they read from and the
+// shard they write to - and use each in fixed places: registrations, the attribution of a routed message to its
+// source, the key of an ack forwarded to its source. Each listed site must use the listed field of the function's
+// own receiver (also inside its function literals and deferred calls). A swap compiles, and files a channel, a
+// claim or a message under the other shard.
+func checkShardIDRoles(c *Ctx, res *report.Result, rule string, only func(kind, callee string) bool) {
+	for _, r := range shardIDRoles {
+		if only != nil && !only(r.kind, r.callee) {
+			continue
+		}
+		f := resolve(c, res, rule, anchor{"proxy", r.recv, r.fn})
+		if f == nil {
+			continue
+		}
+		fns := append([]*ssa.Function{f}, flow.AnonFuncsDeep(f)...)
+		n := 0
+		check := func(v ssa.Value, at ssa.Instruction, what string) {
+			n++
+			p, _ := flow.FieldPath(v)
+			ok := strings.HasSuffix(p, "."+r.want)
+			res.Check(ok, rule, fmt.Sprintf("(%s).%s: %s #%d uses the stream's %s", r.recv, r.fn, what, n, r.want), instrPos(c.Prog, at), p, "the site uses "+p+" where the stream's "+r.want+" belongs: a same-typed shard id of the other role - the registration, message or ack is filed under the wrong shard")
+		}
+		for _, g := range fns {
+			for _, b := range g.Blocks {
+				for _, ins := range b.Instrs {
+					switch r.kind {
+					case "call":
+						call, ok := ins.(ssa.CallInstruction)
+						if !ok {
+							continue
+						}
+						cc := call.Common()
+						name := ""
+						args := cc.Args
+						if cc.IsInvoke() {
+							name = cc.Method.Name()
+						} else if sc := flow.StaticCallee(cc); sc != nil {
+							name = sc.Name()
+							if sc.Signature.Recv() != nil && len(args) > 0 {
+								args = args[1:]
+							}
+						}
+						if name != r.callee || r.arg >= len(args) {
+							continue
+						}
+						check(args[r.arg], ins, "argument "+fmt.Sprint(r.arg)+" of "+r.callee)
+					case "lit":
+						al, ok := ins.(*ssa.Alloc)
+						if !ok || !flow.NamedIs(al.Type(), proxyPkg, "RoutedMessage") {
+							continue
+						}
+						fs, _ := flow.FieldStores(al)
+						v := fs[r.callee]
+						if v == nil {
+							v = flow.StructFieldOrigin(al, r.callee, 0)
+						}
+						if v == nil {
+							continue
+						}
+						// a copy of another message's field (msg.SourceShard of a clone) is the same attribution
+						if p, _ := flow.FieldPath(v); strings.HasSuffix(p, "."+r.callee) {
+							continue
+						}
+						check(v, ins, "RoutedMessage."+r.callee)
+					}
+				}
+			}
+		}
+		if n == 0 {
+			res.Undec(rule, fmt.Sprintf("(%s).%s: %s", r.recv, r.fn, r.callee), fnPos(c.Prog, f), "no such site found (the table lists one)")
+		}
+	}
+}
